@@ -417,3 +417,110 @@ Section Generic2.
       rewrite Hl. exists stf, (ev1 ++ evs). split; [reflexivity|]. split; [lia| exact Hb2].
   Qed.
 End Generic2.
+
+(* ---------- an invariant of populations carried through the whole run ---------- *)
+Section Invariant.
+  Variable N : Num.
+  Variables (P G : Type).
+  Variable effq essq ratio ratio_var : P -> N -> N.
+  Variable cte : N -> N.
+  Variable pbeta : P -> N.
+  Variable psize : P -> nat.
+  Variable resample_o : G -> P -> N -> option nat -> P * G.
+  Variable mutate_o : G -> P -> N -> bool -> P * G.
+
+  Notation STEP := (step N P G effq essq ratio ratio_var cte pbeta resample_o mutate_o).
+  Notation LOOP := (loop N P G effq essq ratio ratio_var cte pbeta resample_o mutate_o).
+  Notation FINISH := (finish N P G pbeta psize resample_o mutate_o).
+  Notation SAMPLE := (sample N P G effq essq ratio ratio_var cte pbeta psize resample_o mutate_o).
+
+  Variable Good : P -> Prop.
+  Hypothesis Hres : forall g p b n, Good p -> Good (fst (resample_o g p b n)).
+  Hypothesis Hmut : forall g p b f, Good p -> Good (fst (mutate_o g p b f)).
+
+  Definition state_good (st : state N P G) : Prop :=
+    Good (s_pop _ _ _ st) /\ Forall Good (h_pops _ _ (s_hist _ _ _ st)).
+  Definition ckpt_good (c : ckpt N P G) : Prop :=
+    Good (c_pop _ _ _ c) /\ Forall Good (h_pops _ _ (c_hist _ _ _ c)).
+
+  Lemma resample_good g p b n : Good p -> Good (fst (resample N P G pbeta resample_o g p b n)).
+  Proof.
+    intros Hp. unfold resample. destruct n; [apply Hres; auto|].
+    destruct (eqb N b (pbeta p)); [exact Hp| apply Hres; auto].
+  Qed.
+
+  Lemma step_good o st st' brk evs :
+    STEP o st = Ok (st', brk, evs) -> state_good st -> state_good st' /\ Forall ckpt_good evs.
+  Proof.
+    unfold step. intros H [Hp Hh].
+    destruct (determine_beta N P effq cte o (s_pop _ _ _ st) (s_beta _ _ _ st) (s_min_step _ _ _ st))
+      as [[[b ms] tr]| |]; try discriminate.
+    pose proof (resample_good (s_g _ _ _ st) (s_pop _ _ _ st) b None Hp) as Hr.
+    destruct (resample N P G pbeta resample_o (s_g _ _ _ st) (s_pop _ _ _ st) b None) as [p1 g1]. cbn [fst] in Hr.
+    pose proof (Hmut g1 p1 b false Hr) as Hm.
+    destruct (mutate_o g1 p1 b false) as [p2 g2]. cbn [fst] in Hm.
+    inversion H; subst; clear H.
+    assert (Hs : state_good {| s_pop := p2; s_beta := b; s_iter := S (s_iter _ _ _ st); s_min_step := ms;
+                               s_hist := {| h_beta := snoc (h_beta _ _ (s_hist _ _ _ st)) b;
+                                            h_eff_target := snoc (h_eff_target _ _ (s_hist _ _ _ st)) (cte b);
+                                            h_ess := snoc (h_ess _ _ (s_hist _ _ _ st)) (essq (s_pop _ _ _ st) b);
+                                            h_ess_target := snoc (h_ess_target _ _ (s_hist _ _ _ st)) (essq (s_pop _ _ _ st) (one N));
+                                            h_ratio := snoc (h_ratio _ _ (s_hist _ _ _ st)) (ratio (s_pop _ _ _ st) b);
+                                            h_ratio_var := snoc (h_ratio_var _ _ (s_hist _ _ _ st)) (ratio_var (s_pop _ _ _ st) b);
+                                            h_pops := if store_history _ o then snoc (h_pops _ _ (s_hist _ _ _ st)) p2
+                                                      else h_pops _ _ (s_hist _ _ _ st);
+                                            h_nmut := S (h_nmut _ _ (s_hist _ _ _ st)) |}; s_g := g2 |}).
+    { split; cbn; auto. destruct (store_history N o); auto. unfold snoc. apply Forall_app. split; auto. }
+    split; [exact Hs|].
+    unfold maybe_checkpoint. destruct (should_checkpoint N o false _); constructor; [exact Hs| constructor].
+  Qed.
+
+  Lemma loop_good f : forall o st stf evs,
+    LOOP f o st = Ok (stf, evs) -> state_good st -> state_good stf /\ Forall ckpt_good evs.
+  Proof.
+    induction f as [|f IH]; intros o st stf evs H Hg; [discriminate|].
+    cbn [loop] in H. destruct (STEP o st) as [[[st1 brk] ev1]| |] eqn:Hs; try discriminate.
+    destruct (step_good _ _ _ _ _ Hs Hg) as [Hg1 He1].
+    destruct brk; [inversion H; subst; auto|].
+    destruct (LOOP f o st1) as [[st2 ev2]| |] eqn:Hl; try discriminate.
+    inversion H; subst. destruct (IH _ _ _ _ Hl Hg1) as [Hg2 He2]. split; auto. apply Forall_app; auto.
+  Qed.
+
+  Lemma finish_good o st out evs :
+    FINISH o st = (out, evs) -> state_good st ->
+    Good (o_pop _ _ _ out) /\ Forall Good (h_pops _ _ (o_hist _ _ _ out)) /\ Forall ckpt_good evs.
+  Proof.
+    unfold finish, finish_state, enlarge. intros H [Hp Hh].
+    assert (Hg : forall p g nm,
+               Good p ->
+               state_good {| s_pop := p; s_beta := s_beta _ _ _ st; s_iter := s_iter _ _ _ st;
+                             s_min_step := s_min_step _ _ _ st; s_hist := set_nmut N P (s_hist _ _ _ st) nm; s_g := g |})
+      by (intros; split; cbn; auto).
+    destruct (n_final N o) as [n|].
+    - destruct (Nat.eqb (psize (s_pop _ _ _ st)) n).
+      + inversion H; subst; clear H. cbn. split; auto. split; auto.
+        unfold maybe_checkpoint. destruct (should_checkpoint N o true _); constructor; [apply Hg; auto| constructor].
+      + pose proof (resample_good (s_g _ _ _ st) (s_pop _ _ _ st) (one N) (Some n) Hp) as Hr.
+        destruct (resample N P G pbeta resample_o (s_g _ _ _ st) (s_pop _ _ _ st) (one N) (Some n)) as [p1 g1]. cbn [fst] in Hr.
+        pose proof (Hmut g1 p1 (one N) true Hr) as Hm.
+        destruct (mutate_o g1 p1 (one N) true) as [p2 g2]. cbn [fst] in Hm.
+        inversion H; subst; clear H. cbn. split; auto. split; auto.
+        unfold maybe_checkpoint. destruct (should_checkpoint N o true _); constructor; [apply Hg; auto| constructor].
+    - inversion H; subst; clear H. cbn. split; auto. split; auto.
+      unfold maybe_checkpoint. destruct (should_checkpoint N o true _); constructor; [apply Hg; auto| constructor].
+  Qed.
+
+  (* final samples, every stored population and every checkpoint payload satisfy the invariant *)
+  Theorem sample_good fuel o p0 g0 out evs :
+    Good p0 -> SAMPLE fuel o p0 g0 = Ok (out, evs) ->
+    Good (o_pop _ _ _ out) /\ Forall Good (h_pops _ _ (o_hist _ _ _ out)) /\ Forall ckpt_good evs.
+  Proof.
+    intros H0 H. unfold sample, run_from in H.
+    destruct (LOOP fuel o (init_state N P G o p0 g0)) as [[stf ev1]| |] eqn:Hl; try discriminate.
+    destruct (FINISH o stf) as [out' ev2] eqn:Hf. inversion H; subst; clear H.
+    assert (Hg0 : state_good (init_state N P G o p0 g0)).
+    { split; cbn; auto. destruct (store_history N o); auto. }
+    destruct (loop_good _ _ _ _ _ Hl Hg0) as [Hg1 He1].
+    destruct (finish_good _ _ _ _ Hf Hg1) as (A & B & C). split; auto. split; auto. apply Forall_app; auto.
+  Qed.
+End Invariant.
